@@ -11,6 +11,7 @@ From Coq Require Import ZArith List Bool Lia.
 From Coq Require Import Init.Byte.
 From FFS Require Import Base.Res Base.Bytes Base.Keccak Crypto.Ecdsa Secp.Model Secp.Spec Secp.Proofs Secp.ProofsChain.
 From FFS Require Import Secp.ProofsReferee Secp.ToyOverflow.
+From FFS Require Import Secp.ProofsWave6.
 Import ListNotations.
 Local Open Scope Z_scope.
 
@@ -605,4 +606,207 @@ Proof.
   { destruct (CompactRSV (UpdateEIP155 toySg 1001)) as [b| |] eqn:E; try (vm_compute in E; discriminate).
     exists b. split; [reflexivity|]. vm_compute in E. injection E as <-. vm_compute. reflexivity. }
   vm_compute. reflexivity.
+Qed.
+
+
+(* =============================================================================================
+   Wave 6 (proofs in Secp/ProofsWave6.v).  Nothing above was changed.
+   The recovery theorems above carry the guard "sV sg = 27 \/ sV sg = 28" on the signature that signing
+   produced (guaranteed by C05_sign_V_exact only when the nonce point has x < n).  Here the guard is GONE:
+   the statements are about every signature SignDirect can return (V = 27..30).
+   ============================================================================================= *)
+
+(* 14. Abstract ECDSA: an OVERFLOW signature (x(kG) >= n; btcec's recovery codes 2/3, V = 29/30) is never
+      recovered to the signer's key with the codes 0/1 that firefly-signer passes to the library, whichever
+      parity is presented: decompression finds the point with x = r < n, the nonce point has x >= n. *)
+Theorem C05_overflow_never_recovers :
+  forall o, laws o -> forall d z k sg odd,
+    ecdsa_sign o d z k = Some sg -> es_ovf sg = true ->
+    ecdsa_recover o z (es_r sg) (es_s sg) odd <> Some (pub o d).
+Proof. exact recover_overflow_never_signer. Qed.
+Print Assumptions C05_overflow_never_recovers.
+
+(* 15. The exact trichotomy for EVERY genuine signature (no guard on its V), every integer V presented and
+      every chain id (any integer): V not accepted -> Err EInvalidV; V normalising to the signature's own V
+      -> the signer's address; V normalising to anything else -> an error or the address of another key.
+      For a signature with V = 29/30 the middle case never happens (v_norm returns 27/28 only): the package
+      cannot recover the signer from an overflow signature it produced, under any V or chain id. *)
+Theorem C05_recover_genuine_any_V :
+  forall o, laws o -> n o < two256 -> forall H, (forall x, length (H x) = 32%nat) ->
+  forall nonce fuel d msg sg V c,
+    1 <= d < n o -> SignDirect o nonce fuel d msg = Ok sg ->
+    match v_norm V c with
+    | None => RecoverDirect o H (with_V sg V) msg c = Err EInvalidV
+    | Some b =>
+        if b =? sV sg then RecoverDirect o H (with_V sg V) msg c = Ok (addr_of o H (pub o d))
+        else forall a, RecoverDirect o H (with_V sg V) msg c = Ok a -> other_key o H d a
+    end.
+Proof. exact recover_genuine_any_V. Qed.
+Print Assumptions C05_recover_genuine_any_V.
+
+(* 16. C05_recover_all_conventions WITHOUT its guard: for every signature signing returns, either V is 27/28
+      and the three conventions return the signer's address, or V is 29/30 -- exactly when a nonce below the
+      fuel has x(kG) >= n --, UpdateEIP2930 leaves it alone, the EIP-155 form is rejected, the V as produced is
+      rejected for every chain id not = 125 mod 128 (29 = 35 + 2*125 - 256: known finding
+      C05/v-truncated-to-byte), and no V / chain id whatsoever yields the signer's key. *)
+Theorem C05_recover_conventions_unguarded :
+  forall o, laws o -> n o < two256 -> forall H, (forall x, length (H x) = 32%nat) ->
+  forall nonce fuel d msg sg c c',
+    1 <= d < n o -> 0 <= c <= 2 ^ 53 -> is_int64 c' = true ->
+    SignDirect o nonce fuel d msg = Ok sg ->
+    ((sV sg = 27 \/ sV sg = 28) /\
+     RecoverDirect o H sg msg c' = Ok (addr_of o H (pub o d)) /\
+     RecoverDirect o H (UpdateEIP2930 sg) msg c' = Ok (addr_of o H (pub o d)) /\
+     RecoverDirect o H (UpdateEIP155 sg c) msg c = Ok (addr_of o H (pub o d))) \/
+    ((sV sg = 29 \/ sV sg = 30) /\
+     (exists j, (j < fuel)%nat /\ n o <= xcoord o (smul o (nonce d msg j) (G o))) /\
+     UpdateEIP2930 sg = sg /\
+     (c' mod 128 <> 125 -> RecoverDirect o H sg msg c' = Err EInvalidV) /\
+     RecoverDirect o H (UpdateEIP155 sg c) msg c = Err EInvalidV /\
+     forall V c0 a, RecoverDirect o H (with_V sg V) msg c0 = Ok a -> other_key o H d a).
+Proof. exact recover_conventions_unguarded. Qed.
+Print Assumptions C05_recover_conventions_unguarded.
+
+(* 17. The tamper theorems 4a-4c and 11 WITHOUT the guard "sV sg = 27 \/ sV sg = 28": it is implied by their
+      premise on the presented V (v_norm returns 27/28 only).  For a signature with V = 29/30 these premises
+      are unsatisfiable -- that case is covered by 15/16 (never the signer, whatever is presented). *)
+Theorem C05_tamper_unguarded :
+  forall o, laws o -> n o < two256 -> forall H, (forall x, length (H x) = 32%nat) ->
+  forall nonce fuel d msg sg,
+    1 <= d < n o -> SignDirect o nonce fuel d msg = Ok sg ->
+    (forall V c a, v_norm V c = Some (55 - sV sg) ->
+       RecoverDirect o H (with_V sg V) msg c = Ok a -> other_key o H d a) /\
+    (forall s' V c a, s' <> sS sg -> v_norm V c = Some (sV sg) ->
+       RecoverDirect o H {| sV := V; sR := sR sg; sS := s' |} msg c = Ok a -> other_key o H d a) /\
+    (forall msg' V c a, hash_to_z msg' mod n o <> hash_to_z msg mod n o -> v_norm V c = Some (sV sg) ->
+       RecoverDirect o H (with_V sg V) msg' c = Ok a -> other_key o H d a) /\
+    (forall msg' V c, hash_to_z msg' mod n o = hash_to_z msg mod n o -> v_norm V c = Some (sV sg) ->
+       RecoverDirect o H (with_V sg V) msg' c = Ok (addr_of o H (pub o d))).
+Proof. exact tamper_unguarded. Qed.
+Print Assumptions C05_tamper_unguarded.
+
+(* 18. (clause 6, hypothesis on the INPUTS) Pure arithmetic, no group: for an order 2^255 <= n < 2^256 two
+      different 32-byte digests are congruent mod n exactly when they differ by n. *)
+Theorem C05_digest32_congruent_iff :
+  forall n msg msg',
+    0 < n -> n < two256 -> two256 <= 2 * n -> length msg = 32%nat -> length msg' = 32%nat -> msg' <> msg ->
+    (hash_to_z msg' mod n = hash_to_z msg mod n <->
+     (hash_to_z msg' = hash_to_z msg + n \/ hash_to_z msg = hash_to_z msg' + n)).
+Proof. exact digest32_congruent_iff. Qed.
+Print Assumptions C05_digest32_congruent_iff.
+
+(* 18'. Hence "a different message" for the direct entry point with no congruence premise: a different
+      32-byte digest that is not the signed one +- n yields an error or another key ... *)
+Theorem C05_tamper_message_32 :
+  forall o, laws o -> n o < two256 -> forall H, (forall x, length (H x) = 32%nat) ->
+  forall nonce fuel d msg sg msg' V c a,
+    1 <= d < n o -> two256 <= 2 * n o -> SignDirect o nonce fuel d msg = Ok sg ->
+    length msg = 32%nat -> length msg' = 32%nat -> msg' <> msg ->
+    hash_to_z msg' <> hash_to_z msg + n o -> hash_to_z msg <> hash_to_z msg' + n o ->
+    v_norm V c = Some (sV sg) ->
+    RecoverDirect o H (with_V sg V) msg' c = Ok a -> other_key o H d a.
+Proof. exact tamper_message_32. Qed.
+Print Assumptions C05_tamper_message_32.
+
+(* 18''. ... and when the SIGNED digest lies in [2^256 - n, n) -- for secp256k1 all digests but a fraction
+      2^-127 -- EVERY different 32-byte digest does (no condition on the other digest at all).
+      Non-vacuity of 18'/18'': the premises [laws o] and [2^256 <= 2 n] together are satisfied by the trusted
+      secp256k1 instance only (no group with a PROVED 256-bit prime order exists in the development); the
+      arithmetic they rest on is 18, instantiated below with secp256k1's order. *)
+Theorem C05_tamper_message_32_midrange :
+  forall o, laws o -> n o < two256 -> forall H, (forall x, length (H x) = 32%nat) ->
+  forall nonce fuel d msg sg msg' V c a,
+    1 <= d < n o -> two256 <= 2 * n o -> SignDirect o nonce fuel d msg = Ok sg ->
+    length msg = 32%nat -> length msg' = 32%nat -> msg' <> msg ->
+    two256 - n o <= hash_to_z msg < n o ->
+    v_norm V c = Some (sV sg) ->
+    RecoverDirect o H (with_V sg V) msg' c = Ok a -> other_key o H d a.
+Proof. exact tamper_message_32_midrange. Qed.
+Print Assumptions C05_tamper_message_32_midrange.
+
+(* ---- non-vacuity of the wave-6 statements ---- *)
+
+(* ToyOvf2 (Toy with x(3G) = 14 = 1 + n, where 1 is also the x coordinate of +-G) satisfies the laws; nonce 3
+   gives the overflow signature (30, 1, 4); presented as V = 28 / 27 recovery ANSWERS Ok with another address
+   (..0e, ..02; the signer is ..05); as produced it is rejected for chain 0, accepted (aliasing) for chain
+   125 and yields ..0e; its EIP-155 form is rejected; theorem 15 instantiated (the premise "Ok a" of its third
+   case is satisfiable in the overflow case). *)
+Definition ovfSg : sigdata := {| sV := 30; sR := 1; sS := 4 |}.
+Example C05_overflow_recovery_nonvacuous :
+  laws ToyOvf2.ops /\ n ToyOvf2.ops < two256 /\
+  SignDirect ToyOvf2.ops toyNonce 1 5 [x07] = Ok ovfSg /\
+  addr_of ToyOvf2.ops toyH (pub ToyOvf2.ops 5) = toyAddr x05 /\
+  RecoverDirect ToyOvf2.ops toyH (with_V ovfSg 28) [x07] 0 = Ok (toyAddr x0e) /\
+  RecoverDirect ToyOvf2.ops toyH (with_V ovfSg 27) [x07] 0 = Ok (toyAddr x02) /\
+  RecoverDirect ToyOvf2.ops toyH ovfSg [x07] 0 = Err EInvalidV /\
+  RecoverDirect ToyOvf2.ops toyH ovfSg [x07] 125 = Ok (toyAddr x0e) /\
+  RecoverDirect ToyOvf2.ops toyH (UpdateEIP155 ovfSg 7) [x07] 7 = Err EInvalidV /\
+  UpdateEIP2930 ovfSg = ovfSg /\
+  other_key ToyOvf2.ops toyH 5 (toyAddr x0e).
+Proof.
+  split; [exact ToyOvf2.ovf2_laws|]. split; [reflexivity|].
+  repeat (split; [vm_compute; reflexivity|]).
+  assert (Hd : 1 <= 5 < n ToyOvf2.ops) by (split; [discriminate|reflexivity]).
+  assert (E : SignDirect ToyOvf2.ops toyNonce 1 5 [x07] = Ok ovfSg) by (vm_compute; reflexivity).
+  refine (C05_recover_genuine_any_V ToyOvf2.ops ToyOvf2.ovf2_laws eq_refl toyH toyH_len toyNonce 1%nat 5 [x07] ovfSg 28 0 Hd E (toyAddr x0e) _).
+  vm_compute. reflexivity.
+Qed.
+
+(* theorem 15 on an ordinary signature (Toy, V = 28): V = 302 with chain 5 -> the signer (aliasing finding),
+   V = 27 -> another key, V = 29 -> rejected; theorem 16 instantiated: its first alternative holds in Toy,
+   its second in ToyOvf2 *)
+Example C05_trichotomy_nonvacuous :
+  RecoverDirect Toy.ops toyH (with_V toySg 302) [x07] 5 = Ok (addr_of Toy.ops toyH (pub Toy.ops 5)) /\
+  (forall a, RecoverDirect Toy.ops toyH (with_V toySg 27) [x07] 0 = Ok a -> other_key Toy.ops toyH 5 a) /\
+  RecoverDirect Toy.ops toyH (with_V toySg 29) [x07] 0 = Err EInvalidV /\
+  (sV toySg = 28 /\ RecoverDirect Toy.ops toyH (UpdateEIP155 toySg 7) [x07] 7 = Ok (addr_of Toy.ops toyH (pub Toy.ops 5))) /\
+  (sV ovfSg = 30 /\ forall V c0 a, RecoverDirect ToyOvf2.ops toyH (with_V ovfSg V) [x07] c0 = Ok a -> other_key ToyOvf2.ops toyH 5 a).
+Proof.
+  assert (Hd : 1 <= 5 < 13) by (split; [discriminate|reflexivity]).
+  assert (Hc : 0 <= 7 <= 2 ^ 53) by (split; discriminate).
+  split; [exact (C05_recover_genuine_any_V Toy.ops Toy.toy_laws eq_refl toyH toyH_len toyNonce 1%nat 5 [x07] toySg 302 5 Hd toy_signs)|].
+  split; [exact (C05_recover_genuine_any_V Toy.ops Toy.toy_laws eq_refl toyH toyH_len toyNonce 1%nat 5 [x07] toySg 27 0 Hd toy_signs)|].
+  split; [exact (C05_recover_genuine_any_V Toy.ops Toy.toy_laws eq_refl toyH toyH_len toyNonce 1%nat 5 [x07] toySg 29 0 Hd toy_signs)|].
+  split.
+  - split; [reflexivity|].
+    destruct (C05_recover_conventions_unguarded Toy.ops Toy.toy_laws eq_refl toyH toyH_len toyNonce 1%nat 5 [x07] toySg 7 0 Hd Hc eq_refl toy_signs)
+      as [(_ & _ & _ & A)|([A|A] & _)]; [exact A|discriminate A|discriminate A].
+  - split; [reflexivity|].
+    assert (E : SignDirect ToyOvf2.ops toyNonce 1 5 [x07] = Ok ovfSg) by (vm_compute; reflexivity).
+    destruct (C05_recover_conventions_unguarded ToyOvf2.ops ToyOvf2.ovf2_laws eq_refl toyH toyH_len toyNonce 1%nat 5 [x07] ovfSg 7 0 Hd Hc eq_refl E)
+      as [([A|A] & _)|(_ & _ & _ & _ & _ & A)]; [discriminate A|discriminate A|exact A].
+Qed.
+
+(* theorem 17 instantiated on Toy (S altered 3 -> 4, presented as V = 1 = yParity): another key *)
+Example C05_tamper_unguarded_nonvacuous :
+  RecoverDirect Toy.ops toyH {| sV := 1; sR := 3; sS := 4 |} [x07] 0 = Ok (toyAddr x06) /\
+  other_key Toy.ops toyH 5 (toyAddr x06).
+Proof.
+  split; [vm_compute; reflexivity|].
+  assert (Hd : 1 <= 5 < 13) by (split; [discriminate|reflexivity]).
+  destruct (C05_tamper_unguarded Toy.ops Toy.toy_laws eq_refl toyH toyH_len toyNonce 1%nat 5 [x07] toySg Hd toy_signs) as (_ & B & _).
+  apply (B 4 1 0 (toyAddr x06)); [discriminate|reflexivity|vm_compute; reflexivity].
+Qed.
+
+(* theorem 18 with secp256k1's order: the digests 5 and 5 + n are different 32-byte strings in the same class
+   (so the exclusion in 18' is needed), 5 and 6 are not congruent; 2^256 <= 2 n holds for that order *)
+Definition secp_order : Z := 0xFFFFFFFFFFFFFFFFFFFFFFFFFFFFFFFEBAAEDCE6AF48A03BBFD25E8CD0364141.
+Example C05_digest32_nonvacuous :
+  secp_order < two256 /\ two256 <= 2 * secp_order /\
+  length (be_fixed 32 5) = 32%nat /\ be_fixed 32 (5 + secp_order) <> be_fixed 32 5 /\
+  hash_to_z (be_fixed 32 (5 + secp_order)) mod secp_order = hash_to_z (be_fixed 32 5) mod secp_order /\
+  hash_to_z (be_fixed 32 6) mod secp_order <> hash_to_z (be_fixed 32 5) mod secp_order /\
+  two256 - secp_order <= hash_to_z (be_fixed 32 (2 ^ 200)) < secp_order.
+Proof.
+  split; [reflexivity|]. split; [discriminate|]. split; [reflexivity|].
+  assert (N : be_fixed 32 (5 + secp_order) <> be_fixed 32 5) by (vm_compute; discriminate).
+  split; [exact N|]. split.
+  - apply (proj2 (C05_digest32_congruent_iff secp_order (be_fixed 32 5) (be_fixed 32 (5 + secp_order))
+             eq_refl eq_refl ltac:(discriminate) eq_refl eq_refl N)).
+    left. vm_compute. reflexivity.
+  - split.
+    + intros E. apply (proj1 (C05_digest32_congruent_iff secp_order (be_fixed 32 5) (be_fixed 32 6)
+             eq_refl eq_refl ltac:(discriminate) eq_refl eq_refl ltac:(vm_compute; discriminate))) in E.
+      destruct E as [E|E]; vm_compute in E; discriminate.
+    + split; vm_compute; [discriminate|reflexivity].
 Qed.
